@@ -741,6 +741,30 @@ def ops_case(ctx, B, rng, dg):
         ctx.count("subst_bound:open-argument")
     r = pycall(lambda: lam.subst_bound(arg))
     check_op(ctx, B, "a", "subst_bound", ["substbound", wire(lam), wire(arg)], r, o_subst_bound(lam.body, arg), rp)
+    if pycall(lambda: arg.is_open()) == ("ok", False) and r[0] == "ok":
+        # the heap-level model of subst_bound with its (_id, depth) cache (Model.lean (e)) on the
+        # same DAG: same term up to bound names
+        d = dag_to([lam.body, arg])
+        evs = []
+        for i, nd in enumerate(d["nodes"]):
+            k = nd[0]
+            if k in ("sv", "v", "c"):
+                node = [k, sexp.enc(nd[1]), sexp.loads(nd[2])]
+            elif k == "ap":
+                node = ["ap", nd[1], nd[2]]
+            elif k == "ab":
+                node = ["ab", sexp.enc(nd[1]), sexp.loads(nd[2]), nd[3]]
+            else:
+                node = ["b", nd[1]]
+            evs.append(["mk", i, node])
+        want = sexp.dumps(kwire.canon_term(wire(r[1])))
+
+        def cbs(ans, ln, want=want):
+            got = sexp.dumps(kwire.canon_term(ans[1])) if ans != "bad-op" and ans[0] == "ok" else None
+            ctx.count("subst_bound:heap-cache-model-%s" % ("agrees" if got == want else "differs"))
+            if got != want:
+                mismatch(ctx, "a:subst_bound-heap", "%s: python %s, heap model %s" % (ln[:400], want[:300], (got or str(ans))[:300]))
+        B.ask(["sbheap", True, evs, d["roots"][1], d["roots"][0], 0], cbs)
     r2 = pycall(lambda: rx.beta_conv())
     check_op(ctx, B, "a", "beta_conv", ["betaconv", wire(rx)], r2, o_subst_bound(lam.body, arg), rp)
     if r[0] == "ok":
@@ -1850,18 +1874,25 @@ def run(ctx):
 
 MANIFEST = {
     "text": "Lean theorems about the shared kernel model and the C03 model: == (structural branch) is equality of name-erased terms with identical "
-            "type annotations and an equivalence; equal terms/types have equal hash trees (the tuple nest __hash__ hashes, incl. CONJ/DISJ/LET); "
-            "fast_compare / fast_compare_typ are total orders whose equivalence is ==; in a heap whose allocator may return any free address and "
-            "whose objects may be freed at any time every constructor / Term(t) / copy keeps `_id = own address`, hence the _id fast path of == "
-            "agrees with the structural comparison (and fails on the pinned tree: counterexample history of 4 steps); subst_type, subst, "
-            "subst_bound, abstract_over/Lambda, beta_conv, beta_norm preserve well-typedness, the type and the denotation in every finite "
-            "standard model (for every valuation and environment: no capture). The model is tied to kernel/term.py, type.py, term_ord.py by "
-            "differential execution on generated DAG terms, object histories with the real addresses, and parsed terms; independent oracles "
-            "(field-level structure, re-implementations, type preservation, `sem` in finite models, order axioms) judge the implementation.",
+            "type annotations and an equivalence; equal terms/types have equal hash trees (the tuple nest __hash__ hashes, incl. CONJ/DISJ/LET), and "
+            "the memoised _hash_val is the hash of the CURRENT nest for every history of constructors, Term(t), copy, frees, hash calls and "
+            "subst_type_inplace as long as no memoised term outside the rewritten objects shares one of them (hash_memo_sound; counterexamples for "
+            "the alias case = the known finding, and for dropping the memo only on nodes with a type annotation); fast_compare / fast_compare_typ "
+            "are total orders whose equivalence is ==; in a heap whose allocator may return any free address and whose objects may be freed at "
+            "any time every constructor / Term(t) / copy keeps `_id = own address`, hence the _id fast path of == agrees with the structural "
+            "comparison (fails on the pinned tree: 4-step counterexample), and subst_bound run on the heap with its (_id, depth)-keyed cache and "
+            "_id-based re-use returns a representation of the pure result (substBound_cache_sound; counterexample for the key without depth); "
+            "subst_type, subst, subst_bound, abstract_over/Lambda (closed bodies), beta_conv, beta_norm preserve well-typedness, the type and the "
+            "denotation in every finite standard model (for every valuation and environment: no capture). The model is tied to kernel/term.py, "
+            "type.py, term_ord.py by differential execution on generated DAG terms, object histories with the real addresses, and parsed terms; "
+            "the VERDICT rests on independent oracles on the implementation (field-level structure, == implies equal hashes for terms and types, "
+            "re-implementations up to alpha, type preservation, `sem` in finite models, order axioms).",
     "note": "Trusted: Lean kernel; propext/Classical.choice/Quot.sound; Python's tuple/str hashing and str order; the correspondence is only as "
-            "good as the generated cases. beta_norm: if it returns (fuel); termination not proved. The _id-keyed caches inside subst/subst_bound/"
-            "incr_boundvars/abstract_over are covered by the injectivity of _id on live objects (theorem) plus differential testing on shared "
-            "DAGs, not by a heap-level model of each cache. __copy__, deepcopy, pickle: correspondence only. Infinite models outside the property.",
+            "good as the generated cases. How __hash__ builds its value and which bound names results carry are NOT checked (reported as "
+            "info:* counters): a refactoring that keeps 'equal terms have equal hashes' passes. beta_norm: if it returns (fuel); termination not "
+            "proved. The caches of subst / incr_boundvars / abstract_over short cuts are covered by _id injectivity (theorem) plus differential "
+            "testing on shared DAGs; subst_bound's cache is modelled on the heap for closed arguments only. __copy__, deepcopy, pickle: "
+            "correspondence only. Infinite models outside the property.",
     "design_ref": "DESIGN.md 4/C03",
 }
 FINDINGS = [
